@@ -79,4 +79,5 @@ e57b5cb C14
 300dfe4 C19
 69e04a0 C09
 77c373c C07
+205de03 C19
 LIST
